@@ -24,7 +24,7 @@ CHECKS = {
   note="Trusted base: the in-process sequential pass uses the library's own validator (the property's last clause defines exactly this comparison); independent walker for grouping and offset normalisation; exclusions: a link's first RDH0 / framing uncorrupted, layout agrees with format, interleavings whose first packet fails the documented pre-check are skipped (counted).",
   technique="property-based testing: metamorphic relations over interleavings + differential CLI (multi-threaded dispatch) vs single sequential pass"),
  "C07": dict(
-  text="Round-trip oracle against the input: for generated well-framed streams with arbitrary/corrupted word-structured payloads, every error message's leading offset must be an RDH start or word start of the independently walked chain, quoted 10-byte dumps must equal the input bytes at that offset, `current :` and `previous:` RDH rows and header fields quoted in the message text must equal an independent decode, frame messages must end on a TDT; all five check modes, all filter kinds, muted and unmuted, stderr and statistics file.",
+  text="Round-trip oracle against the input: for generated well-framed streams with arbitrary/corrupted word-structured payloads, every error message's leading offset must be an RDH start or word start of the independently walked chain, quoted 10-byte dumps must equal the input bytes at that offset (also the closing TDT quoted by an empty-frame message, at its `ending at` offset), `current :` and `previous:` RDH rows and header fields quoted in the message text must equal an independent decode, frame messages must end on a TDT; all five check modes, all filter kinds, muted and unmuted, stderr and statistics file.",
   note="Trusted base: independent chain walker and word-offset arithmetic; domain restricted (by the statement) to payload layouts that agree with the header's data format.",
   technique="property-based testing: round-trip oracle (re-read the input at the reported offset) over generated and mutated streams"),
  "C08": dict(
@@ -36,15 +36,15 @@ CHECKS = {
   note="Trusted base: the transcription of doc/ITS_payload_fsm_continuous_mode.puml in harness/src/props/c09.rs (DESIGN.md A.1); the abstraction from 11 implementation variants to 8 diagram states; recovery after an illegal word is unspecified and not judged.",
   technique="model-based property testing: reference state machine, exhaustive product exploration of the finite transition table + random sequences"),
  "C10": dict(
-  text="Reference-predicate testing of the RDH checks: the documented sanity list applied to raw bytes and the documented running automaton are compared with the implementation for every single-bit flip of the 512 header bits at three positions (exhaustive), every field at its boundary set, random walks of up to 5000 RDHs with mutation rates 0..50 %, and walks through the real CLI (offsets of E10/E11 checked).",
+  text="Reference-predicate testing of the RDH checks: the documented sanity list applied to raw bytes and the documented running automaton are compared with the implementation for every single-bit flip of the 512 header bits at three positions (exhaustive) and every field at its boundary set, each for streams whose first header version is 7, 6, 3 or 100, random walks of up to 5000 RDHs with mutation rates 0..50 %, and walks through the real CLI (offsets of E10/E11 checked).",
   note="Trusted base: ref_rdh_sanity_fails / RefRunning in harness/src/model.rs written from doc/checks_list.md; BC bound read as <= 0xDEB; after a stop bit > 1 the expectation is set-valued (no verdict demanded).",
   technique="property-based testing: differential against reference predicates, exhaustive bit-flip table + boundary enumeration + random walks"),
  "C11": dict(
-  text="Reference-predicate testing of word sanity: per status-word type all 256 ids, all 72 one-bit and 2556 two-bit patterns, all-ones and byte-saturated values (enumerated completely), random 80-bit values, and for data words all 256 ids x single-lane / empty masks and complements; both the predicates and the end-to-end reporting through the payload validator in the state that expects the word.",
+  text="Reference-predicate testing of word sanity: per status-word type all 256 ids, all 72 one-bit and 2556 two-bit patterns, all-ones and byte-saturated values (enumerated completely), random 80-bit values, and for data words all 256 ids x single-lane / empty masks and complements, plus the metamorphic relation that reserved bits of the governing IHW change nothing at the data words (256 ids x 7 patterns x 3 masks); both the predicates and the end-to-end reporting through the payload validator in the state that expects the word.",
   note="Trusted base: reference predicates in harness/src/model.rs written from the documented bit layout; exhaustive only over the named sub-spaces of 2^80.",
   technique="property-based testing: differential against reference predicates, exhaustive enumeration of id / 1-bit / 2-bit sub-spaces + random values"),
  "C12": dict(
-  text="Reference-chunker testing: both data formats x 0..700 words x 0..40 trailing 0xFF through `preprocess_payload` (differential against an independent chunker), `do_payload_checks` with one faulty word at a generated index (examined exactly once, at its offset, with its bytes), the over-padding triple (reported once at the RDH, payload skipped, state reset) in-process and through the CLI, and the CLI data view (one row per word, no padding row).",
+  text="Reference-chunker testing: both data formats x 0..700 words x 0..40 trailing 0xFF through `preprocess_payload` (differential against an independent chunker), `do_payload_checks` with one faulty word at a generated index (examined exactly once, at its offset, with its bytes), the over-padding triple (reported once at the RDH, payload skipped, state reset; the over-padded packet in four shapes incl. a single line of 0xFF on a stop-bit page) in-process and through the CLI, and the CLI data view (one row per word, no padding row).",
   note="Trusted base: ref_chunk in harness/src/model.rs; words carry their index so order and multiplicity are observable.",
   technique="property-based testing: differential against a reference chunker + metamorphic state-reset triple"),
  "C13": dict(
